@@ -318,8 +318,6 @@ def rule_G1(ctx, R):
                 elif len(ca) != 1:
                     bad = "handler invoked %d times after a caught panic" % len(ca)
                 elif p.kind == "unwind":
-                    if not p.ev("RESUME") and not any(e["k"] == "UNWIND_AT" and e["i"] > ca[0]["i"] for e in p.events):
-                        bad = "panic not resumed after the handler"
                     seen_unw = True
                 if ca and caught and ca[0]["i"] < caught[0]["i"]:
                     bad = "handler runs before the panic is caught"
